@@ -841,6 +841,33 @@ def gen_definitions(thorough):
             ms = named_members([t, I('u8')]) if shape == 'named' else tuple_members([t, I('u8')])
             add(D('struct', shape, ms, generics=[T], inst=u32), 'param in %s (%s struct)' % (src(t), shape))
         add(D('enum', variants=[V('A', 'unit'), V('B', 'named', named_members([t])), V('C', 'tuple', tuple_members([PARAM('T'), t]))], generics=[T], inst=u8), 'param in enum variants %s' % src(t))
+    # systematic product: member type x container x attribute set
+    for t in GEN_MEMBER:
+        for cont in ('named', 'tuple', 'enum'):
+            def mk(attrs):
+                attrs = dict(attrs)
+                attrs.setdefault('generics', [T])
+                if cont == 'named': return D('struct', 'named', named_members([t, I('u16')]), inst=u8, **attrs)
+                if cont == 'tuple': return D('struct', 'tuple', tuple_members([I('u16'), t]), inst=u8, **attrs)
+                return D('enum', variants=[V('A', 'named', named_members([t])), V('B', 'tuple', tuple_members([I('u8'), t])), V('C', 'unit')], inst=u8, **attrs)
+            add(mk({'bounds': "T: TypeInfo + 'static"}), 'product: %s in %s, bounds(T: TypeInfo)' % (src(t), cont))
+            add(mk({'skip_params': ['T']}), 'product: %s in %s, skip_type_params(T) (T still needs type info where a member uses it)' % (src(t), cont))
+            add(mk({'where': ['T: Clone']}), 'product: %s in %s, where T: Clone on the type' % (src(t), cont))
+            add(mk({'generics': [('T', 'Clone', 'u8')]}), 'product: %s in %s, inline bound + default' % (src(t), cont))
+            if is_phantom(t):
+                d = mk({'skip_params': ['T']})
+                d.noinfo_inst = noinfo
+                add(d, 'product: %s in %s, skip_type_params(T) at a type without type info' % (src(t), cont))
+    # two parameters: every subset skipped x where each parameter occurs
+    occ = {'direct': lambda p: PARAM(p), 'phantom': lambda p: PH(PARAM(p)), 'vec': lambda p: VEC(PARAM(p)), 'phantom-nested': lambda p: PH(OPT(PARAM(p)))}
+    for ot, ft in occ.items():
+        for ou, fu in occ.items():
+            for skip in ([], ['T'], ['U'], ['T', 'U']):
+                ni = None
+                if skip:
+                    cand = {'T': NAMED('NoInfo') if ('T' in skip and ot.startswith('phantom')) else I('u8'), 'U': NAMED('NoInfo') if ('U' in skip and ou.startswith('phantom')) else BOOL, 'N': 2}
+                    if cand['T'] == NAMED('NoInfo') or cand['U'] == NAMED('NoInfo'): ni = cand
+                add(D('struct', 'named', named_members([ft('T'), fu('U'), I('u8')]), generics=[T, U], skip_params=skip, inst=u8, noinfo_inst=ni), 'two params: T %s, U %s, skip %s' % (ot, ou, skip))
     # skip_type_params: the parameter needs no type info
     for shape in ('named', 'tuple'):
         mk = named_members if shape == 'named' else tuple_members
